@@ -100,9 +100,9 @@ theorem de_snapshot_must_carry_best :
 
 /-- non-vacuity of `resume_equals_uninterrupted_de`: a run in which members are replaced, cut in the middle -/
 example : (DE.run false exObj [[7, 3], [1, -8], [0, 2]] (DE.init exObj [7, 3] 7)).pop = [0, 2]
-    ∧ DE.run false exObj ([[7, 3], [1, -8], [0, 2]].drop 2)
-        (DESnap.save (DE.run false exObj ([[7, 3], [1, -8], [0, 2]].take 2) (DE.init exObj [7, 3] 7))).restore
-      = DE.run false exObj [[7, 3], [1, -8], [0, 2]] (DE.init exObj [7, 3] 7) := by
+    ∧ DESnap.save (DE.run false exObj ([[7, 3], [1, -8], [0, 2]].drop 2)
+        (DESnap.save (DE.run false exObj ([[7, 3], [1, -8], [0, 2]].take 2) (DE.init exObj [7, 3] 7))).restore)
+      = DESnap.save (DE.run false exObj [[7, 3], [1, -8], [0, 2]] (DE.init exObj [7, 3] 7)) := by
   decide
 
 /-! ### Nelder-Mead -/
@@ -194,11 +194,10 @@ theorem powell_boundary_resume (q : PwOracle X E) (m n : Nat) (s0 : Pw X E) :
     simp only [Pw.run]
     exact ih _
 
-/-- toy oracles: extrapolate to `2x - x1` (energy |.|), one line search that moves one unit towards 0 -/
+/-- toy oracles: extrapolate to `2x - x1` (energy |.|), line searches that end two units lower -/
 def pwEx : PwOracle Int Int :=
   { extr := fun x x1 _ _ _ _ d => (2 * x - x1, (2 * x - x1).natAbs, d),
-    lines := fun x _ _ => (if x > 0 then x - 1 else if x < 0 then x + 1 else 0,
-                           (if x > 0 then x - 1 else if x < 0 then x + 1 else 0).natAbs, 0, 1) }
+    lines := fun x _ _ => (x - 2, (x - 2).natAbs, 0, 2) }
 
 def pwS0 : Pw Int Int :=
   { x := 10, fval := 10, x1 := 12, fx := 12, bigind := 0, delta := 1, direc := [1], stepmon := [(12, 12), (10, 10)],
@@ -239,8 +238,8 @@ theorem linked_call {h : Heap} {l : Links} (hl : l.Linked) (hv : l.Valid h) (t :
   obtain ⟨h1, h2⟩ := hl
   obtain ⟨v1, _, v3, _⟩ := hv
   constructor
-  · simp [evaluations, call, ← h1, List.getD_eq_getElem?_getD, List.getElem?_set, v1]
-  · simp [monitor, call, ← h2, List.getD_eq_getElem?_getD, List.getElem?_set, v3]
+  · simp [evaluations, call, ← h1, List.getD_eq_getElem?_getD, v1]
+  · simp [monitor, call, ← h2, List.getD_eq_getElem?_getD, v3]
 
 /-- **linked_counts**: while the solver is linked to its objective, after `n` real calls of the user's cost
 `evaluations` has grown by exactly `n` and the evaluation monitor holds exactly the `n` new records, in order -/
@@ -264,22 +263,22 @@ theorem call_other (h : Heap) (a b : Links) (t : Nat)
     (h1 : a.closureCtr ≠ b.solverCtr) (h2 : a.closureCtr ≠ b.closureCtr)
     (h3 : a.closureMon ≠ b.solverMon) (h4 : a.closureMon ≠ b.closureMon) :
     evaluations (call h a t) b = evaluations h b ∧ monitor (call h a t) b = monitor h b
-    ∧ hidden (call h a t) b = hidden h b
+    ∧ hiddenCount (call h a t) b = hiddenCount h b
     ∧ (call h a t).mon.getD b.closureMon [] = h.mon.getD b.closureMon [] := by
   refine ⟨?_, ?_, ?_, ?_⟩
-  · simp [evaluations, call, List.getD_eq_getElem?_getD, List.getElem?_set, h1]
-  · simp [monitor, call, List.getD_eq_getElem?_getD, List.getElem?_set, h3]
-  · simp [hidden, call, List.getD_eq_getElem?_getD, List.getElem?_set, h2]
-  · simp [call, List.getD_eq_getElem?_getD, List.getElem?_set, h4]
+  · simp [evaluations, call, List.getD_eq_getElem?_getD, h1]
+  · simp [monitor, call, List.getD_eq_getElem?_getD, h3]
+  · simp [hiddenCount, call, List.getD_eq_getElem?_getD, h2]
+  · simp [call, List.getD_eq_getElem?_getD, h4]
 
 /-- **copies_independent**: if the cells the objective of `a` writes are none of `b`'s cells, then advancing `a`
-(any number of evaluations) leaves `b`'s counter, evaluation monitor and hidden closure cells unchanged -/
+(any number of evaluations) leaves `b`'s counter, evaluation monitor and hiddenCount closure cells unchanged -/
 theorem copies_independent (a b : Links)
     (h1 : a.closureCtr ≠ b.solverCtr) (h2 : a.closureCtr ≠ b.closureCtr)
     (h3 : a.closureMon ≠ b.solverMon) (h4 : a.closureMon ≠ b.closureMon) :
     ∀ (ts : List Nat) (h : Heap),
       evaluations (calls h a ts) b = evaluations h b ∧ monitor (calls h a ts) b = monitor h b
-      ∧ hidden (calls h a ts) b = hidden h b
+      ∧ hiddenCount (calls h a ts) b = hiddenCount h b
       ∧ (calls h a ts).mon.getD b.closureMon [] = h.mon.getD b.closureMon [] := by
   intro ts
   induction ts with
@@ -297,18 +296,18 @@ theorem pickle_preserves_links (h : Heap) (l : Links) (hv : l.Valid h) :
     ((pickleCopy h l).2.Linked ↔ l.Linked)
     ∧ evaluations (pickleCopy h l).1 (pickleCopy h l).2 = evaluations h l
     ∧ monitor (pickleCopy h l).1 (pickleCopy h l).2 = monitor h l
-    ∧ hidden (pickleCopy h l).1 (pickleCopy h l).2 = hidden h l
+    ∧ hiddenCount (pickleCopy h l).1 (pickleCopy h l).2 = hiddenCount h l
     ∧ (pickleCopy h l).2.Valid (pickleCopy h l).1 := by
   obtain ⟨v1, v2, v3, v4⟩ := hv
   refine ⟨?_, ?_, ?_, ?_, ?_⟩
   · unfold Links.Linked pickleCopy
     by_cases hc : l.solverCtr = l.closureCtr <;> by_cases hm : l.solverMon = l.closureMon <;> simp [hc, hm]
-  · simp [evaluations, pickleCopy, List.getD_eq_getElem?_getD, List.getElem?_append]
-  · simp [monitor, pickleCopy, List.getD_eq_getElem?_getD, List.getElem?_append]
-  · unfold hidden pickleCopy
+  · simp [evaluations, pickleCopy, List.getD_eq_getElem?_getD]
+  · simp [monitor, pickleCopy, List.getD_eq_getElem?_getD]
+  · unfold hiddenCount pickleCopy
     by_cases hc : l.solverCtr = l.closureCtr
-    · simp [hc, List.getD_eq_getElem?_getD, List.getElem?_append]
-    · simp [hc, List.getD_eq_getElem?_getD, List.getElem?_append]
+    · simp [hc, List.getD_eq_getElem?_getD]
+    · simp [hc, List.getD_eq_getElem?_getD]
   · unfold Links.Valid pickleCopy
     by_cases hc : l.solverCtr = l.closureCtr <;> by_cases hm : l.solverMon = l.closureMon <;> simp [hc, hm]
 
@@ -346,7 +345,7 @@ theorem deepcopy_as_implemented_unlinks (h : Heap) (l : Links) : ¬ (deepcopyImp
   unfold Links.Linked deepcopyImpl
   simp
 
-/-- ... which means: **the deep copy stops counting**. Its objective still runs (the hidden counter moves), but
+/-- ... which means: **the deep copy stops counting**. Its objective still runs (the hiddenCount counter moves), but
 `evaluations` and the evaluation monitor of the copied solver stay where they were at the time of the copy -/
 theorem deepcopy_copy_stops_counting (h : Heap) (l : Links) (ts : List Nat) :
     let h' := (deepcopyImpl h l).1
@@ -364,12 +363,12 @@ theorem deepcopy_copy_stops_counting (h : Heap) (l : Links) (ts : List Nat) :
       simp only [calls]
       rw [a, b]
       constructor
-      · simp [evaluations, call, deepcopyImpl, List.getD_eq_getElem?_getD, List.getElem?_set]
-      · simp [monitor, call, deepcopyImpl, List.getD_eq_getElem?_getD, List.getElem?_set]
+      · simp [evaluations, call, deepcopyImpl, List.getD_eq_getElem?_getD]
+      · simp [monitor, call, deepcopyImpl, List.getD_eq_getElem?_getD]
   obtain ⟨a, b⟩ := key ts (deepcopyImpl h l).1
   refine ⟨a.trans ?_, b.trans ?_⟩
-  · simp [evaluations, deepcopyImpl, List.getD_eq_getElem?_getD, List.getElem?_append]
-  · simp [monitor, deepcopyImpl, List.getD_eq_getElem?_getD, List.getElem?_append]
+  · simp [evaluations, deepcopyImpl, List.getD_eq_getElem?_getD]
+  · simp [monitor, deepcopyImpl, List.getD_eq_getElem?_getD]
 
 /-- the closed witness: a solver with 3 evaluations is deep-copied, the copy evaluates twice: its `evaluations`
 is still 3 (5 real calls were made through its objective), while a pickled copy says 5 -/
@@ -378,7 +377,7 @@ theorem deepcopy_stops_counting_witness :
     let h := calls a.1 a.2 [10, 11, 12]
     let d := deepcopyImpl h a.2
     let p := pickleCopy h a.2
-    evaluations (calls d.1 d.2 [13, 14]) d.2 = 3 ∧ hidden (calls d.1 d.2 [13, 14]) d.2 = 5
+    evaluations (calls d.1 d.2 [13, 14]) d.2 = 3 ∧ hiddenCount (calls d.1 d.2 [13, 14]) d.2 = 5
     ∧ monitor (calls d.1 d.2 [13, 14]) d.2 = [10, 11, 12]
     ∧ evaluations (calls p.1 p.2 [13, 14]) p.2 = 5 ∧ monitor (calls p.1 p.2 [13, 14]) p.2 = [10, 11, 12, 13, 14] := by
   decide
@@ -400,7 +399,7 @@ theorem redecorate_relinks (h : Heap) (l : Links) (hv : l.Valid h) :
     ∧ monitor (decorate h l).1 (decorate h l).2 = monitor h l ∧ (decorate h l).2.Valid (decorate h l).1 := by
   obtain ⟨v1, v2, v3, v4⟩ := hv
   refine ⟨⟨rfl, rfl⟩, ?_, ?_, ?_⟩
-  · simp [evaluations, decorate, List.getD_eq_getElem?_getD, List.getElem?_append]
+  · simp [evaluations, decorate, List.getD_eq_getElem?_getD]
   · simp [monitor, decorate]
   · unfold Links.Valid decorate
     simp
